@@ -217,18 +217,26 @@ class JSONCollection(SyncedCollection):
     @filename.setter
     def filename(self, value):
         # When setting the filename we must also remap the locks.
-        with self._thread_lock:
-            # Other objects may still be bound to the old file (or already to
-            # the new one), so the lock of the old file is kept and a lock for
-            # the new file is only created if there is none yet. The new lock
-            # must exist before the filename changes, because other threads
-            # using this object look the lock up by filename at any time.
-            if self._supports_threading:
-                with self._cls_lock:
-                    if value not in self._locks:
-                        self._locks[value] = RLock()
+        while True:
+            # The lock is looked up by filename: if another thread changed the
+            # filename while this one waited, take the current lock instead.
+            lock = self._thread_lock
+            with lock:
+                if self._thread_lock is not lock:
+                    continue
+                # Other objects may still be bound to the old file (or already
+                # to the new one), so the lock of the old file is kept and a
+                # lock for the new file is only created if there is none yet.
+                # The new lock must exist before the filename changes, because
+                # other threads using this object look the lock up by filename
+                # at any time.
+                if self._supports_threading:
+                    with self._cls_lock:
+                        if value not in self._locks:
+                            self._locks[value] = RLock()
 
-            self._filename = value
+                self._filename = value
+                break
 
     @property
     def _lock_id(self):
